@@ -87,7 +87,8 @@ impl SearchAlgorithm {
     pub fn run_vertex_oriented(&self, src_id: VertexId, dst_id_opt: Option<VertexId>, query: &Value, direction: &Direction, si: &SearchInstance) -> (r: Result<SearchAlgorithmResult, SearchError>)
         ensures r matches Ok(res) ==> (res.routes@.len() > 0 && dst_id_opt is Some ==> (walk(&*si.directed_graph, src_id, dst_id_opt->Some_0, res.routes@[0]@)
                     && (forall|i: int| 0 <= i < res.routes@[0]@.len() ==> lets_through(&*si.frontier_model, (#[trigger] res.routes@[0]@[i]).edge_id))
-                    // run_a_star builds every tree entry with perform_edge_traversal(edge, edge before it, state at the near vertex): the stored route is chained
+                    // ASSUMED, and weaker than it looks: run_a_star builds every tree entry with perform_edge_traversal(edge, edge before it, state at the near vertex), so the stored route is
+                    // chained PROVIDED no vertex on it was re-labelled after its child was labelled (unit al_astar proves only the inequality POT); always so for Dijkstra
                     && chained(si, res.routes@[0]@)))
     { unimplemented!() }
 }
